@@ -384,6 +384,8 @@ def node_line(n, tzoff):
         fields.append("text=" + hx(f["text"]))
     if "real" in f:
         fields.append("real=" + hx(f["real"]))
+    if n.get("target") is not None:
+        fields.append("target=" + hx(n["target"]))
     if "xattrs" in f:
         for k, v in f["xattrs"].items():
             try:
